@@ -454,6 +454,17 @@ fn generate(seed: u64, n: usize, tier: &str, out: &mut impl Write) {
                 rng.pick(&ab), rng.pick(&ab), rng.below(3), rng.below(1000), rng.below(1000), rng.below(1000), rng.below(1000),
                 rng.below(2), rng.below(4)).unwrap();
         }
+        // ---- M / N spanning several row / column blocks with per-row / per-column bias, alpha and
+        // beta different from 0/1, prepacked and not (K small: block-index mistakes, not depth)
+        {
+            let big = hk::block_params(&g, 1000, 1000, 8, None);
+            let (mc, nc) = (big.mc, big.nc);
+            for (m, nn, k, bias, pa, pb) in [(2 * mc + 3, 20usize, 5usize, 1u8, 0u8, 0u8), (mc + 1, 9, 3, 1, 1, 0), (5, 2 * nc + 3, 4, 2, 0, 0), (mr + 1, nc + 1, 3, 2, 0, 1), (mc + 1, nc + 1, 2, 1, 0, 0), (mc + mr - 1, nc + nr - 1, 2, 2, 1, 1)] {
+                writeln!(out, "G kern={} th=16 m={} n={} k={} la={} lb={} pa={} pb={} alpha={} beta={} bias={} sa={} sb={} sc={} sbias={} api=0 fill={}",
+                    kern, m, nn, k, rng.below(5), rng.below(5), pa, pb, rng.pick(&[2i64, -1]), rng.pick(&[2i64, -1, 0]), bias,
+                    rng.below(1000), rng.below(1000), rng.below(1000), rng.below(1000), rng.below(4)).unwrap();
+            }
+        }
         // ---- im2col
         for _ in 0..(n / 6).max(4) {
             let cv = loop {
